@@ -33,6 +33,7 @@ class ApiScenario(Scenario):
     ]
     budget = {"quick": 20, "thorough": 420, "minimise": 40}
     reentrant = True
+    probe_consistency = False
 
     def gen_case(self, seed, tier, idx):
         rng = random.Random(f"{seed}:ops")
@@ -68,6 +69,37 @@ class ApiScenario(Scenario):
     def oracle(self, run, sim, verdict, final):
         raise NotImplementedError
 
+    @staticmethod
+    def final_consistency(run, sim):
+        """Quiescent end of a concurrent program: for every watch key, which handlers are registered (found by scheduling a
+        probe handler on the key and queueing a marker through its emitter) and was an emitter reported for it before?"""
+        import watchdog.events as wev
+
+        obs = run.observer
+        out = []
+        keys = sorted({spec_key(s) for s in run.case["specs"]}, key=repr)
+
+        def ekey(e):
+            return (e.watch.path, e.watch.is_recursive, None if e.watch.event_filter is None else tuple(sorted(c.__name__ for c in e.watch.event_filter)))
+
+        probe = run.handlers[0].__class__(99)
+        for key in keys:
+            had = any(ekey(e) == key for e in obs.emitters)
+            spec_i = next(i for i, s in enumerate(run.case["specs"]) if spec_key(s) == key)
+            path, rec, filt = run.case["specs"][spec_i]
+            from .apiworld import FILTERS
+
+            f = FILTERS[filt]
+            n0 = len(run.hist["callbacks"])
+            obs.schedule(probe, path, recursive=rec, event_filter=None if f is None else [getattr(wev, n) for n in f])
+            em = next(e for e in sorted(obs.emitters, key=lambda e: e._idx) if ekey(e) == key)
+            em.queue_event(wev.FileCreatedEvent(f"{path}/final-probe"))
+            sim.wait_quiescent()
+            got = sorted({cb["h"] for cb in run.hist["callbacks"][n0:] if cb["path"].endswith("/final-probe")} - {99})
+            out.append({"key": key, "emitter_reported": had, "handlers": got})
+            obs.remove_handler_for_watch(probe, run.watch_for(spec_i))
+        return out
+
     def run_case(self, case, sched_seed, trace=None):
         run = ApiRun(case)
         run.enable_monitoring()
@@ -89,6 +121,8 @@ class ApiScenario(Scenario):
             run.do_op("A0", ["barrier"])
             started = any(c["op"] == "start" and not c.get("exc") for c in run.hist["calls"])
             final["started"] = started
+            if self.probe_consistency and started and not any(c["op"] == "stop" for c in run.hist["calls"]):
+                final["consistency"] = self.final_consistency(run, sim)
             run.do_op("A0", ["stop"])
             if started:
                 j = run.do_op("A0", ["join"])
@@ -517,7 +551,46 @@ def enum_c13(max_len=4):
     return out
 
 
+class C13Conc(ApiScenario):
+    """Concurrent client programs judged by the registry-consistency oracle only."""
+
+    prop = "C13"
+    reentrant = False
+    probe_consistency = True
+
+    def oracle(self, run, sim, verdict, final):
+        v = hang_violations("C13", verdict) + uncaught_violations("C13", sim)
+        for c in final.get("consistency") or []:
+            key = c["key"]
+            # handlers may also be attached to an unscheduled watch by an add_handler_for_watch whose caller's view was stale
+            # (another thread's unschedule came first): outside the valid domain, so only schedule()-registered keys count
+            if any(x["op"] == "add_handler" and x.get("key") == key for x in run.hist["calls"]):
+                continue
+            if c["handlers"] and not c["emitter_reported"]:
+                v.append(Violation("registry", "C13:concurrent:handler-registered-for-watch-without-emitter", f"at the quiescent end handlers {c['handlers']} are registered for {key} but observer.emitters reports no emitter for it; calls={[(x['actor'], x['op'], x['args'], x.get('exc')) for x in run.hist['calls']]}"))
+        return v
+
+
 _c13_gen = C13.gen_case
+_c13_run = C13.run_case
+_c13_shrink = C13.shrink
+
+
+def _c13_run_case(self, case, sched_seed, trace=None):
+    if "actors" in case:
+        return C13Conc().run_case(case, sched_seed, trace)
+    return _c13_run(self, case, sched_seed, trace)
+
+
+def _c13_shrink_case(self, case):
+    if "actors" in case:
+        yield from C13Conc().shrink(case)
+    else:
+        yield from _c13_shrink(self, case)
+
+
+C13.run_case = _c13_run_case
+C13.shrink = _c13_shrink_case
 
 
 def _c13_gen_case(self, seed, tier, idx):
@@ -528,6 +601,11 @@ def _c13_gen_case(self, seed, tier, idx):
             cfg = random.Random(f"{seed}:cfg")
             sched = draw_sched(cfg, line=True, pct_k=300, step_cap=150_000, horizon=600, pct_share=0.2)
             return {"specs": [list(s) for s in ENUM13_SPECS], "handlers": 2, "ops": [list(o) for o in ops], "fault_positions": dict(faults), "scripts": {}, "hscripts": [], "sched": sched, "enumerated": True}
+    if idx % 4 == 3:
+        # concurrent client programs (no injected failures): registry consistency at the quiescent end
+        c = C13Conc().gen_case(seed, tier, idx)
+        c["actors"][0] = [op for op in c["actors"][0] if op[0] != "stop"]
+        return c
     return _c13_gen(self, seed, tier, idx)
 
 
